@@ -16,7 +16,7 @@ import (
 	"verif/harness/lib/srv"
 )
 
-const ruleText = "rapid state machine per shard (own name space /tN, own live H.264+AAC streams carrying a per-path marker, own users) against one in-process server with auth enabled: histories of 6..15 steps over {save user (create/update, +-password, +-admin, pull/push from 10 patterns, through POST /api/v1/users or auth.Save), delete user, login (right/wrong password), refresh (good / superseded / access token as refresh)} interleaved with access attempts (credential: good | none | empty | refresh-as-access | superseded | garbage | spoofed internal header; RTSP: good | none | wrong password | the password an update replaced | stale nonce | Basic | unknown user) x path x entry point {RTSP/TCP play, publish (fresh path or replacing a live stream), path switch, user switch; ws-rtsp play, URL switch, publish, announce-then-play, upgrade URL with a .ts/.flv/.m3u8 suffix; WSP control+data (own / own with a suffixed upgrade URL / foreign / other-path channel); HTTP-FLV; ws-flv; HLS playlist; HLS segment; 16 management API calls}. Oracle = reference monitor from the rights saved last (refmodel.Permits); observed = marked media bytes / registry identity / API effect. Both directions asserted. Non-trivial = attempt on a (user, action, path) whose reference decision an earlier update or delete of this history changed, or a mid-session switch, or a publish attempt through a WebSocket session; fingerprint = entry, shape, credential, paths, rights of the users involved, expected decision."
+const ruleText = "rapid state machine per shard (own name space /tN, own live H.264+AAC streams carrying a per-path marker, own users) against one in-process server with auth enabled: histories of 6..15 steps over {save user (create/update, +-password, +-admin, pull/push from 10 patterns, through POST /api/v1/users or auth.Save), delete user, login (right/wrong password), refresh (good / superseded / access token as refresh)} interleaved with access attempts (credential: good | none | empty | refresh-as-access | superseded | garbage | spoofed internal header; RTSP: good | none | wrong password | the password an update replaced | stale nonce | Basic | unknown user) x path x entry point {RTSP/TCP play, publish (fresh path or replacing a live stream), path switch, user switch; ws-rtsp play, URL switch, publish, announce-then-play, upgrade URL with a .ts/.flv/.m3u8 suffix; WSP control+data (own / own with a suffixed upgrade URL / foreign / other-path channel); HTTP-FLV; ws-flv; HLS playlist; HLS segment; the HTTP-side play entries again with a non-canonical spelling of the path written to the socket as is (detour directory + dot-dot segments, single-dot and empty segments, dots and slashes literal or percent-encoded, upper case, trailing blank; GET/POST/OPTIONS, CONNECT for what the mux would redirect), aimed at users whose right covers the detour directory only; 16 management API calls}. Oracle = reference monitor from the rights saved last (refmodel.Permits); observed = marked media bytes / registry identity / API effect. Both directions asserted. Non-trivial = attempt on a (user, action, path) whose reference decision an earlier update or delete of this history changed, or a mid-session switch, or a publish attempt through a WebSocket session; fingerprint = entry, shape, credential, paths, rights of the users involved, expected decision."
 
 type hist struct {
 	t     *rapid.T
@@ -978,6 +978,8 @@ func (h *hist) run() {
 			h.attemptHTTPMedia(rapid.SampledFrom([]string{"hls-segment", "http-flv", "ws-flv", "hls-playlist", "hls-segment"}).Draw(h.t, "entry"))
 		case "ws":
 			h.attemptWsRTSP()
+		case "spelled":
+			h.attemptSpelled()
 		case "api":
 			h.attemptAPI()
 		case "wsp":
@@ -994,7 +996,7 @@ func (h *hist) run() {
 	}
 }
 
-var stepKinds = []string{"focused", "focused", "rtsp", "rtsp", "http", "http", "ws", "ws", "api", "api", "wsp", "save", "save", "save", "delete", "login", "refresh"}
+var stepKinds = []string{"focused", "focused", "rtsp", "rtsp", "http", "http", "ws", "ws", "spelled", "api", "api", "wsp", "save", "save", "save", "delete", "login", "refresh"}
 
 func runShard(t *testing.T, id int, quick, thorough int) {
 	sh := newShard(t, id)
